@@ -74,6 +74,10 @@ chk("C17","exploration","offline sequence checker over recorded client frames an
  "Held on the scenarios explored (1-3 connections x 1-3 concurrent subscriptions, scripted upstreams with pauses / errors / complete / error frame): each subscription's data frames are exactly the emitted events in order with fully stitched payloads, nothing under a foreign id, upstream errors forwarded, all frames well formed.",
  "Trusted: loopback websocket upstream that validates start payloads; quiescence by bounded wait (inconclusive on watchdog).","DESIGN.md §5 C17")
 
+chk("C18","exploration","stress + directed hook schedules over client/upstream action histories with process-liveness, strict frame parser, upstream-connection-closed, goroutine-leak monitors and the race detector",
+ "Held on the histories explored (jitter schedules and both orders of every hook-point pair between Close / Listen / upstream reader / handler clean-up): no panic or fatal error, all frames well formed, upstream connections closed after stop and after the connection ended, no subscription goroutine left after the settle bound, no data race.",
+ "Liveness restated as bounded progress (3 s / 8 s after stimuli end). The model-checking half of the quantifier is outside this technique family.","DESIGN.md §5 C18")
+
 claimed=set(C)
 na=[{"property_id":p['id'],"reason":"check under construction in this round; not claimed yet"} for p in props if p['id'] not in claimed]
 m={"version":1,"setup_cmd":"./run.sh build && ./run.sh selftest",
